@@ -44,7 +44,7 @@ PROPS = {
         "not_decided": ["to_average / to_marginal: proved for scales with at least one bracket and finite thresholds 0 <= t_0 < t_1 < ...; negative thresholds and the empty scale are outside; "
                         "float('inf') is an unspecified real constant above every finite threshold (arithmetic on it is not modelled); a structurally different but tax-equivalent result "
                         "(e.g. equal-rate brackets merged) would fail the structural clauses",
-                        "helpers.combine_tax_scales (parameter-node iteration) is not under contract; it only calls add_tax_scale on a scale starting with (0, 0)",
+                        "helpers.combine_tax_scales: proved for groups of three members (each a marginal-rate scale or not, symbolic), add_tax_scale entering through its contract",
                         "the decimals option of multiply_thresholds"],
     },
     "C05": {
@@ -90,7 +90,7 @@ PROPS = {
             "numpy.select: first matching choice (validated against numpy)",
         ],
         "bounded": ["_restore_holder: a holder with two stored periods (symbolic) / one eternal entry; the loops over known periods are unrolled"],
-        "not_decided": ["dump_simulation / restore_simulation orchestration (directory checks, order of populations)",
+        "not_decided": ["dump_simulation / restore_simulation: proved on systems with zero, one or two group entities and a fixed set of holders / variable directories (concrete shapes, recording contracts of the four workers)",
                         "string variables (object dtype): not restorable without pickle - outside the assumed round trip"],
     },
     "C07": {
